@@ -63,6 +63,6 @@ theorem q4_start {c : Cfg α} (hf : c.o.force = false) (de : Bool) (k0 e0 : Nat)
     · intro e; have := continueLoop_unlinkForce c _ e; simp [hf] at this
     · have := b.stIno; simpa using this
     · have := b.still; simpa using this
-  · exact b
+  · exact ⟨b.pre, b.srcN, b.noForce, b.atUnlink, b.stIno, b.still⟩
 
 end XzVerif.XzIo
